@@ -21,7 +21,7 @@ macro_rules! elem_float {
             const NAME: &'static str = $name;
             // identities 2 and 5 are the infinities (valid, non-missing values at the extremes of the type)
             fn from_id(id: i64) -> Self { if id == 0 { <$t>::NAN } else if id == 2 { <$t>::INFINITY } else if id == 5 { <$t>::NEG_INFINITY } else { id as $t } }
-            fn to_id(&self) -> i64 { if self.is_nan() { 0 } else if *self == <$t>::INFINITY { 2 } else if *self == <$t>::NEG_INFINITY { 5 } else { *self as i64 } }
+            fn to_id(&self) -> i64 { if <$t>::is_nan(*self) { 0 } else if *self == <$t>::INFINITY { 2 } else if *self == <$t>::NEG_INFINITY { 5 } else { *self as i64 } }
             fn nn_to_id(x: &Self::NotNan) -> i64 { x.raw() as i64 }
         }
     };
@@ -159,7 +159,7 @@ fn remove_nan_nd<T: Elem>(case: &Value, out: &mut Vec<Value>) {
         let mut v = lay.view_mut(&mut parent);
         let sz = std::mem::size_of::<T>() as isize;
         for x in v.iter_mut() {
-            if !x.is_nan() {
+            if x.to_id() != 0 {
                 let a = (x as *const T as isize - base as isize) / sz;
                 *x = T::from_id(a as i64 + 1);
             }
